@@ -436,6 +436,17 @@ pub fn instr_header_field<T: TryFrom<i64>>(emitter: &dyn Emitter, what: &str, va
     )))
 }
 
+/// Helper for [`InstrFormat::write_instr`] implementations of formats whose end-of-script marker is recognized
+/// by an opcode of -1: a real instruction with that opcode could never be read back.
+pub fn forbid_terminal_opcode(emitter: &dyn Emitter, opcode: raw::Opcode) -> Result<(), crate::error::ErrorReported> {
+    match opcode {
+        0xFFFF => Err(emitter.as_sized().emit(error!(
+            "opcode {opcode} cannot be used in this format because it is the end-of-script marker",
+        ))),
+        _ => Ok(()),
+    }
+}
+
 #[derive(Debug)]
 pub enum ReadInstr {
     /// A regular instruction was read that belongs in the script.
